@@ -177,6 +177,26 @@ MDel(v, k) ==
     IF j = 0 THEN Refuse("KeyError", v)
     ELSE Res("", RemoveAt(raw, pos[j]), val, ty, RemoveAt(L, j))
 
+\* setdefault(k, x): the first match stays as it is; a missing key is appended
+MSetDefault(v, t, k, nv) ==
+    LET L == Filter(raw, v) IN
+    IF FirstKey(L, k) # 0 THEN Res("", raw, val, ty, L) ELSE MSet(v, t, k, nv)
+
+(* view.reverse() is what collections.abc.MutableSequence makes of it: pairwise swaps            *)
+(* view[i], view[n-1-i] = view[n-1-i], view[i].  On views of NODES the first swap assigns an       *)
+(* item that is still in the list, which is refused (C19) before anything changed; lists of 0 or 1 *)
+(* items have nothing to swap.  On string views the values swap in place (items of one kind).     *)
+OpReverse(v) ==
+    LET L == Filter(raw, v)  n == Len(L) IN
+    IF Views[v].kind = "str" THEN
+        IF \E k \in 1..n : ty[L[k]] # ty[L[n + 1 - k]] THEN Refuse("SKIP", v)
+        ELSE Res("", raw,
+                 [id \in DOMAIN val |-> IF \E k \in 1..n : L[k] = id
+                                        THEN val[L[n + 1 - (CHOOSE k \in 1..n : L[k] = id)]] ELSE val[id]],
+                 ty, L)
+    ELSE IF n < 2 THEN Res("", raw, val, ty, L)
+    ELSE Refuse("ValueError", v)
+
 \* edit an item through the item object itself (not through any list view): its value changes
 OpEdit(k, x) == Res("", raw, [val EXCEPT ![raw[k]] = x], ty, raw)
 
@@ -216,6 +236,14 @@ Next ==
         \/ "setslice" \in Ops /\ \E sl \in SlicesFor(n) : \E k \in 0..MaxBatch : \E b \in Batches(v, k) :
                 Do("setslice", v, [sl |-> sl, b |-> b], OpSetSlice(v, sl, b))
         \/ "clear" \in Ops /\ Do("clear", v, [x |-> 0], OpClear(v))
+        \* operations inherited from collections.abc (MutableSequence / MutableMapping mixins)
+        \/ "iadd" \in Ops /\ \E k \in 0..MaxBatch : \E b \in Batches(v, k) :
+                Do("iadd", v, [b |-> b], OpAppend(v, b))
+        \/ "reverse" \in Ops /\ Do("reverse", v, [x |-> 0], OpReverse(v))
+        \/ "msetdefault" \in Ops /\ K \in {"map", "mapval"} /\ \E k \in Vals : \E nv \in Vals :
+                Do("msetdefault", v, [k |-> k, nv |-> nv], MSetDefault(v, ItemType(v), k, nv))
+        \/ "mupdate" \in Ops /\ K \in {"map", "mapval"} /\ \E k \in Vals : \E nv \in Vals :
+                Do("mupdate", v, [k |-> k, nv |-> nv], MSet(v, ItemType(v), k, nv))
         \/ "remove" \in Ops /\ \E t \in Views[v].types : \E x \in Vals :
                 Do("remove", v, [t |-> t, x |-> x], OpRemove(v, t, x))
         \/ "discard" \in Ops /\ K \in {"node", "str", "map", "mapval"} /\ \E t \in Views[v].types : \E x \in Vals :
